@@ -340,6 +340,9 @@ let handle (line : string) : string =
       (match Search.minimax_s (nat_of_int (int_of_string d)) p Z0 with
        | Base.Panic w -> panic_text w
        | Base.Ok (v, s) -> Printf.sprintf "OK|%d|%d" (int_of_z v) (if s then 1 else 0)))
+  | ["LAZY"; fen; d; a; b] ->
+    (match load_fen fen with Error e -> e | Stdlib.Ok p ->
+      "OK|" ^ string_of_int (int_of_z (Eval.lazy_eval p (z_of_int (int_of_string d)) (z_of_int (int_of_string a)) (z_of_int (int_of_string b)))))
   | ["TIME"; side; args] -> do_time side args
   | ["PROTO"; toks] -> do_proto (Stdlib.String.split_on_char ' ' toks)
   | _ -> "BADREQ"
